@@ -36,7 +36,7 @@ Lemma resolve_node2_fix ns n ctx st b pos st' :
   resolve_node2 m defs mb last n ctx st b pos = Ok (st', Resolved) -> st' = st.
 Proof.
   intros Hl Hin H. unfold resolve_node2 in H. cbv zeta in H.
-  destruct n as [s d0|s d0 e|i src|width d e|r e|a e|a e|bi].
+  destruct n as [s d0|s d0 e|i src|width d e|r e|a e|a e|bi|e].
   - (* label *)
     destruct (Cursor.eval_address mb b pos (negb last)) as [a| |]; try discriminate.
     destruct (value_eqv (VInt (un a)) (nth s (s_sym st) VUnknown)) eqn:E; [|discriminate].
@@ -95,6 +95,10 @@ Proof.
     rewrite G, E. rewrite set_nth_same. destruct st; reflexivity.
   - (* bank switch *)
     now inversion H.
+  - (* #assert: Resolved only on the last pass, and the state is never touched *)
+    destruct (negb last); [discriminate|].
+    match type of H with match ?x with EOk _ => _ | EErr => _ end = _ => destruct x as [[v c]|]; [|discriminate] end.
+    destruct v as [| | | | |[|]|]; try discriminate. now inversion H.
 Qed.
 
 Lemma step2_fix ns nc st c prev st' c' prev' :
@@ -145,7 +149,7 @@ Proof.
   assert (Hsame : s_sym st' = s_sym st -> labels_ok2 ns st').
   { intros E s d0 c Hs. rewrite E. eapply Hl, Hs. }
   unfold resolve_node2 in H. cbv zeta in H.
-  destruct n as [s d0|s d0 e|i src|width d e|k e|k e|k e|bi].
+  destruct n as [s d0|s d0 e|i src|width d e|k e|k e|k e|bi|e].
   - destruct (Cursor.eval_address mb b pos (negb last)) as [a| |]; try discriminate.
     inversion H; subst; clear H. intros s0 d1 c0 Hs0. cbn [s_sym].
     destruct (Nat.eq_dec s0 s) as [->|Hne].
@@ -182,6 +186,9 @@ Proof.
       inversion H; subst. apply Hsame. reflexivity.
     + inversion H; subst. apply Hsame. reflexivity.
   - inversion H; subst. exact Hl.
+  - destruct (negb last); [inversion H; subst; exact Hl|].
+    match type of H with match ?x with EOk _ => _ | EErr => _ end = _ => destruct x as [[v c]|]; [|discriminate] end.
+    destruct v as [| | | | |[|]|]; try discriminate. inversion H; subst. exact Hl.
 Qed.
 
 Lemma pass2_labels_ok_gen all : syms_distinct2 all ->
